@@ -10,7 +10,7 @@ CLAIMS = {
     ),
 }
 CLAIMS["C20"] = dict(
-    text="Deductive proof over the reals/integers of the scalar helper contracts of math.py: split_float, maybe_int/is_almost_int (agreement), snap_scale (+idempotence), snap_affine (component-wise exact post), align_down/up/_pow2, clamp, _snap_edge_pos/_snap_edge/snap_grid (covers up to tol / aligned / minimal, stated in pixel units), Bin1D (+ neighbour, lookup-inverse and rebuild lemmas), data_resolution_and_offset / affine_from_axis on regularly spaced labels, is_affine_st, split_translation. Linear algebra (decompose_rws, affine_from_pts, Poly2d) is NOT decided here.",
+    text="Deductive proof over the reals/integers of the scalar helper contracts of math.py: split_float, maybe_int/is_almost_int (agreement), snap_scale (+idempotence), snap_affine (component-wise exact post), align_down/up/_pow2, clamp, _snap_edge_pos/_snap_edge/snap_grid (covers up to tol / aligned / minimal, stated in pixel units), Bin1D (+ neighbour, lookup-inverse and rebuild lemmas), data_resolution_and_offset / affine_from_axis on regularly spaced labels, is_affine_st, split_translation. Poly2d: input normalisation = the affine it was built with and with_input_transform composes (polynomial identities), fit dispatch by number of points (symbolic N); 1/<int> hint lemma. The numerical linear algebra (decompose_rws, affine_from_pts, the least-squares fits themselves) is NOT proved: BOUNDED native check.",
     note="floats are reals (A1); log2 enters through the axiom 2**(n-1) < x <= 2**n for n=ceil(log2 x); the composed snap_affine idempotence lemma is not claimed (solver unknown), its two component lemmas are",
     technique="contract-based deductive verification: sidecar pre/postconditions + lemmas over contracts, VCs from symbolic execution of the real source, z3 then cvc5, counterexamples replayed on the real code",
     design_ref="DESIGN.md §2 C20",
